@@ -7,6 +7,7 @@ import (
 
 	"github.com/ethereum/go-ethereum/consensus/misc"
 	ethtypes "github.com/ethereum/go-ethereum/core/types"
+	ethparams "github.com/ethereum/go-ethereum/params"
 
 	sdk "github.com/cosmos/cosmos-sdk/types"
 
@@ -26,6 +27,15 @@ func (k Keeper) CalculateBaseFee(ctx sdk.Context) sdkmath.Int {
 		gasLimit = big.NewInt(consParams.Block.MaxGas)
 	} else {
 		gasLimit = new(big.Int).SetUint64(math.MaxUint64)
+	}
+
+	if gasLimit.Sign() == 0 {
+		// NOTE: a MaxGas equal to 0 also means that block gas is unlimited, see baseapp
+		gasLimit = new(big.Int).SetUint64(math.MaxUint64)
+	}
+	if gasLimit.Uint64()/ethparams.ElasticityMultiplier == 0 {
+		// the gas target is zero, there is nothing to compare the usage with (and nothing to divide by), keep the base fee
+		return sdkmath.NewIntFromBigInt(math.BigMax(params.BaseFee.BigInt(), params.MinGasPrice.TruncateInt().BigInt()))
 	}
 
 	nextBaseFee := misc.CalcBaseFee(k.evmKeeper.GetChainConfig(ctx), &ethtypes.Header{
